@@ -14,11 +14,13 @@ PKG = "storage"
 HARNESS = ["storage/zz_verif_c05_test.go", "storage/zz_verif_c05_export.go"]
 IAM_PKG = "auth/api/iam"
 IAM_HARNESS = ["auth/api/iam/zz_verif_c05_test.go", "storage/zz_verif_c05_export.go"]
-HARNESSES = [(PKG, HARNESS, "c05"), (IAM_PKG, IAM_HARNESS, "c05iam")]
+VCI_PKG = "vcr/issuer"
+VCI_HARNESS = ["vcr/issuer/zz_verif_c05_test.go", "storage/zz_verif_c05_export.go"]
+HARNESSES = [(PKG, HARNESS, "c05"), (IAM_PKG, IAM_HARNESS, "c05iam"), (VCI_PKG, VCI_HARNESS, "c05vci")]
 
-BURN = {"code", "reqobj", "vpnonce", "redirect"}
+BURN = {"code", "reqobj", "vpnonce", "redirect", "preauth"}
 TTL_FACT = {"code": "ttl_oauthCodeStore", "reqobj": "ttl_authzRequestObjectStore", "vpnonce": "ttl_oauthNonceStore",
-            "redirect": "ttl_userRedirectStore", "s2s": "ttl_s2sNonceStore", "jti": "ttl_useNonceOnceStore"}
+            "redirect": "ttl_userRedirectStore", "preauth": "vciTokenTTL", "s2s": "ttl_s2sNonceStore", "jti": "ttl_useNonceOnceStore"}
 
 REQUIRED = ["at_most_once_atomic", "at_most_one_success_atomic", "at_most_one_success_today",
             "mark_successes_separated", "mark_at_most_once_within_ttl", "mark_at_most_once_within_ttl_today",
@@ -66,7 +68,7 @@ def oracle(op, line, facts):
         # dead after any finished attempt on the same secret (authorization code: also failed attempts), dead after the TTL
         for j, b in enumerate(threads):
             if j != i and b["kind"] == a["kind"] and b["id"] == a["id"] and j in last and i in first and last[j] < first[i] \
-                    and j < len(outs) and not outs[j].startswith("stuck") and (a["kind"] == "code" or outs[j] in ("ok", "mismatch", "post-check")):
+                    and j < len(outs) and not outs[j].startswith("stuck") and (a["kind"] in ("code", "preauth") or outs[j] in ("ok", "mismatch", "post-check")):
                 bad.append((f"C05:{a['kind']}:{where}:honoured-after-earlier-attempt", f"thread {i} succeeded after thread {j} ({outs[j]}) had finished"))
         if tfirst.get(i, 0) > ttl(a["kind"]):
             bad.append((f"C05:{a['kind']}:{where}:honoured-after-ttl", f"thread {i} succeeded at t={tfirst[i]} > ttl {ttl(a['kind'])}"))
@@ -104,7 +106,8 @@ def run(ctx):
     for fn in glob.glob(os.path.join(os.path.dirname(os.path.dirname(os.path.abspath(__file__))), "harness", "corpus", "C05", "*.jsonl")):
         shutil.copy(fn, corpus)
     ops, impl, model, bad = [], [], [], []
-    for pkg, files, name, cwd in ((PKG, HARNESS, "c05", None), (IAM_PKG, IAM_HARNESS, "c05iam", os.path.join(vlib_repo(), IAM_PKG))):
+    for pkg, files, name, cwd in ((PKG, HARNESS, "c05", None), (IAM_PKG, IAM_HARNESS, "c05iam", os.path.join(vlib_repo(), IAM_PKG)),
+                                  (VCI_PKG, VCI_HARNESS, "c05vci", os.path.join(vlib_repo(), VCI_PKG))):
         binary = ctx.go_test_binary(pkg, files, name)
         if binary is None:
             ctx.oblige("harness-builds:" + name, False, ctx.harness_error[-1500:])
